@@ -52,28 +52,27 @@ impl PacketSink for LogSink {
 #[derive(Clone, Copy)]
 struct Sent { ch: u8, reliable: bool, byte: u8, wpl: u16, cpl: u16 }
 
+fn any_sent() -> Sent {
+    let ch: u8 = kani::any();
+    kani::assume(ch < 2);
+    Sent { ch, reliable: kani::any(), byte: kani::any(), wpl: 0, cpl: 0 }
+}
+
 // Leads follow the sender rule (decided on the real PacketSender by o5_1_*): distance to the latest
 // Reliable packet sent before, window-wide and per channel; 0 if there is none.
-fn history<const N: usize>() -> [Sent; N] {
-    let mut h = [Sent { ch: 0, reliable: false, byte: 0, wpl: 0, cpl: 0 }; N];
-    let mut i = 0;
-    while i < N {
-        let ch: u8 = kani::any();
-        kani::assume(ch < 2);
-        h[i].ch = ch;
-        h[i].reliable = kani::any();
-        h[i].byte = kani::any();
-        let mut j = 0;
-        while j < i {
-            if h[j].reliable {
-                h[i].wpl = (i - j) as u16;
-                if h[j].ch == ch { h[i].cpl = (i - j) as u16; }
-            }
-            j += 1;
-        }
-        i += 1;
-    }
-    h
+fn history2() -> [Sent; 2] {
+    let h0 = any_sent();
+    let mut h1 = any_sent();
+    if h0.reliable { h1.wpl = 1; if h0.ch == h1.ch { h1.cpl = 1; } }
+    [h0, h1]
+}
+
+fn history3() -> [Sent; 3] {
+    let [h0, h1] = history2();
+    let mut h2 = any_sent();
+    if h1.reliable { h2.wpl = 1; } else if h0.reliable { h2.wpl = 2; }
+    if h1.reliable && h1.ch == h2.ch { h2.cpl = 1; } else if h0.reliable && h0.ch == h2.ch { h2.cpl = 2; }
+    [h0, h1, h2]
 }
 
 fn datagram_of(base: u32, i: usize, s: &Sent) -> frame::Datagram {
@@ -84,119 +83,118 @@ fn datagram_of(base: u32, i: usize, s: &Sent) -> frame::Datagram {
     }
 }
 
-// Oracle over everything delivered so far (C01 + the safety half of C02).
-fn check_log<const N: usize>(h: &[Sent; N], log: &LogSink) {
+fn pos(log: &LogSink, tag: u8) -> usize {
+    // position of a tag in the delivery log (6 = not delivered)
+    if log.n > 0 && log.tag[0] == tag { 0 } else if log.n > 1 && log.tag[1] == tag { 1 } else if log.n > 2 && log.tag[2] == tag { 2 } else if log.n > 3 && log.tag[3] == tag { 3 } else { 6 }
+}
+
+// Oracle over everything delivered so far, two-packet history (C01 + the safety half of C02).
+fn check2(base: u32, h: &[Sent; 2], log: &LogSink, r: &PacketReceiver) {
     assert!(log.len_ok, "[C01,C04] delivered length equals submitted length");
-    assert!(log.n <= N, "[C01] nothing is delivered twice (more deliveries than packets sent)");
-    let mut k = 0;
-    while k < log.n && k < 6 {
-        let t = log.tag[k] as usize;
-        assert!(t < N, "[C01] only submitted packets are delivered");
-        assert!(log.val[k] == h[t].byte, "[C01] contents unaltered");
-        let mut m = 0;
-        while m < k {
-            let u = log.tag[m] as usize;
-            assert!(u != t, "[C01] nothing is delivered twice");
-            if u < N && h[u].ch == h[t].ch {
-                assert!(u < t, "[C01] per-channel delivery follows submission order");
-            }
-            m += 1;
-        }
-        // never skipped: every earlier Reliable packet of the same channel was delivered before
-        let mut e = 0;
-        while e < t {
-            if h[e].reliable && h[e].ch == h[t].ch {
-                let mut found = false;
-                let mut m = 0;
-                while m < k { if log.tag[m] as usize == e { found = true; } m += 1; }
-                assert!(found, "[C02,C01] a Reliable packet is delivered before any later packet of its channel");
-            }
-            e += 1;
-        }
-        k += 1;
+    assert!(log.n <= 2, "[C01] nothing is delivered twice (more deliveries than packets sent)");
+    if log.n >= 1 { assert!(log.tag[0] < 2 && log.val[0] == h[log.tag[0] as usize].byte, "[C01] only submitted packets are delivered, contents unaltered"); }
+    if log.n == 2 {
+        assert!(log.tag[1] < 2 && log.val[1] == h[log.tag[1] as usize].byte, "[C01] only submitted packets are delivered, contents unaltered");
+        assert!(log.tag[0] != log.tag[1], "[C01] nothing is delivered twice");
+        if h[0].ch == h[1].ch { assert!(log.tag[0] == 0, "[C01] per-channel delivery follows submission order"); }
     }
-}
-
-fn delivered<const N: usize>(log: &LogSink, i: usize) -> bool {
-    let mut m = 0;
-    let mut f = false;
-    while m < log.n && m < 6 { if log.tag[m] as usize == i { f = true; } m += 1; }
-    f
-}
-
-// the window never moves past a Reliable packet that has not been delivered (it could never be delivered afterwards)
-fn check_base<const N: usize>(base: u32, h: &[Sent; N], log: &LogSink, r: &PacketReceiver) {
-    let mut i = 0;
-    while i < N {
-        if h[i].reliable && !delivered::<N>(log, i) {
-            assert!(packet_id::sub(packet_id::add(base, i as u32), r.base_id()) < 4, "[C02] the receive window never passes an undelivered Reliable packet");
-        }
-        i += 1;
+    let (p0, p1) = (pos(log, 0), pos(log, 1));
+    if p1 < 6 && h[0].reliable && h[0].ch == h[1].ch {
+        assert!(p0 < p1, "[C02,C01] a Reliable packet is delivered before any later packet of its channel");
     }
-    assert!(packet_id::sub(r.base_id(), base) <= N as u32, "[C01] window base stays within the ids sent");
+    // the window never moves past a Reliable packet that has not been delivered
+    if h[0].reliable && p0 == 6 { assert!(r.base_id() == base, "[C02] the receive window never passes an undelivered Reliable packet"); }
+    if h[1].reliable && p1 == 6 { assert!(packet_id::sub(packet_id::add(base, 1), r.base_id()) < 4, "[C02] the receive window never passes an undelivered Reliable packet"); }
+    assert!(packet_id::sub(r.base_id(), base) <= 2, "[C01] window base stays within the ids sent");
 }
 
-fn run_schedule<const N: usize, const K: usize>(base: u32) {
-    let h = history::<N>();
+fn schedule_n2_k2(base: u32) {
+    let h = history2();
     let mut r = small(base, 1448 * 4);
     let mut log = LogSink::new();
-    let mut k = 0;
-    while k < K {
-        let a: usize = kani::any();
-        kani::assume(a < N);
-        r.handle_datagram(datagram_of(base, a, &h[a]));
-        if kani::any() {
-            r.receive(&mut log);
-            check_log::<N>(&h, &log);
-            check_base::<N>(base, &h, &log, &r);
-        }
-        k += 1;
+    let a0: usize = kani::any();
+    let a1: usize = kani::any();
+    kani::assume(a0 < 2 && a1 < 2);
+    r.handle_datagram(datagram_of(base, a0, &h[a0]));
+    if kani::any() {
+        r.receive(&mut log);
+        check2(base, &h, &log, &r);
     }
+    r.handle_datagram(datagram_of(base, a1, &h[a1]));
     r.receive(&mut log);
-    check_log::<N>(&h, &log);
-    check_base::<N>(base, &h, &log, &r);
-    kani::cover!(log.n == N, "everything delivered");
-    kani::cover!(log.n < K && log.n >= 1, "a duplicate or blocked arrival was not delivered");
+    check2(base, &h, &log, &r);
+    kani::cover!(log.n == 2, "everything delivered");
+    kani::cover!(log.n == 1 && a0 == a1, "a duplicate was dropped");
+    kani::cover!(log.n == 0, "the only arrival is blocked behind a missing Reliable parent");
     std::mem::forget(r);
 }
 
-//@h props=C01,C02 tier=quick timeout=1200 role=receiver-model
+//@h props=C01,C02 tier=quick timeout=1800 role=receiver-model
 //@fn PacketReceiver::{handle_datagram, receive, advance_window, set_channel_base_id, try_unset_channel_base_id}, AssemblyWindow::{try_add, clear}, datagram_is_valid
-//@bound W=4 slots, base id 0; history of 2 packets (channel in {0,1}, reliable or not, one symbolic payload byte, leads per the sender rule); 2 arrivals each choosing ANY packet of the history (loss, duplication, reordering), receive() after each arrival or not (any)
+//@bound W=4 slots, base id 0; history of 2 packets (channel in {0,1}, reliable or not, one symbolic payload byte, leads per the sender rule); 2 arrivals each choosing ANY packet of the history (loss, duplication, reordering), receive() after the first arrival or not (any), receive() at the end
 #[kani::proof]
-#[kani::unwind(7)]
-fn o1_4_receiver_model_n2_k2_base0() { run_schedule::<2, 2>(0); }
+#[kani::unwind(6)]
+fn o1_4_receiver_model_n2_k2_base0() { schedule_n2_k2(0); }
 
-//@h props=C01,C02 tier=quick timeout=1200 role=receiver-model
+//@h props=C01,C02 tier=quick timeout=1800 role=receiver-model
 //@fn PacketReceiver::{handle_datagram, receive, advance_window, set_channel_base_id, try_unset_channel_base_id}, AssemblyWindow::{try_add, clear}, datagram_is_valid
 //@bound W=4 slots, base id 2^20-1 (the second packet's id wraps to 0); history of 2 packets; 2 arrivals of ANY packet of the history; receive() cadence any
 #[kani::proof]
-#[kani::unwind(7)]
-fn o1_4_receiver_model_n2_k2_wrap() { run_schedule::<2, 2>(0xFFFFF); }
+#[kani::unwind(6)]
+fn o1_4_receiver_model_n2_k2_wrap() { schedule_n2_k2(0xFFFFF); }
 
 //@h props=C01,C02 tier=thorough timeout=3000 role=receiver-model
 //@fn PacketReceiver::{handle_datagram, receive, advance_window, set_channel_base_id, try_unset_channel_base_id}, AssemblyWindow::{try_add, clear}
-//@bound W=4 slots, base id 2^20-2; history of 3 packets; 3 arrivals of ANY packet of the history; receive() cadence any
+//@bound W=4 slots, base id 2^20-2; history of 3 packets; 3 arrivals of ANY packet of the history; receive() after every arrival
 #[kani::proof]
-#[kani::unwind(7)]
-fn o1_4_receiver_model_n3_k3_wrap() { run_schedule::<3, 3>(0xFFFFE); }
-
-//@h props=C05,C01 tier=quick timeout=1200 role=receiver-inorder
-//@fn PacketReceiver::{handle_datagram, receive, advance_window}, AssemblyWindow::{try_add, clear}
-//@bound W=4, base 2^20-1; history of 3 packets (channels, modes, bytes any); ideal network: packet n arrives n-th; receive() after each arrival or only at the end (any)
-#[kani::proof]
-#[kani::unwind(7)]
-fn o5_3_in_order_arrivals_all_delivered_in_order() {
-    let base = 0xFFFFF;
-    let h = history::<3>();
+#[kani::unwind(6)]
+fn o1_4_receiver_model_n3_k3_wrap() {
+    let base = 0xFFFFE;
+    let h = history3();
     let mut r = small(base, 1448 * 4);
     let mut log = LogSink::new();
+    let mut k = 0;
+    while k < 3 {
+        let a: usize = kani::any();
+        kani::assume(a < 3);
+        r.handle_datagram(datagram_of(base, a, &h[a]));
+        r.receive(&mut log);
+        k += 1;
+    }
+    assert!(log.len_ok && log.n <= 3, "[C01] nothing is delivered twice");
+    let (p0, p1, p2) = (pos(&log, 0), pos(&log, 1), pos(&log, 2));
     let mut i = 0;
-    while i < 3 {
-        r.handle_datagram(datagram_of(base, i, &h[i]));
-        if kani::any() { r.receive(&mut log); }
+    while i < log.n && i < 3 {
+        assert!(log.tag[i] < 3 && log.val[i] == h[log.tag[i] as usize].byte, "[C01] only submitted packets are delivered, contents unaltered");
         i += 1;
     }
+    if log.n >= 2 { assert!(log.tag[0] != log.tag[1], "[C01] nothing is delivered twice"); }
+    if log.n == 3 { assert!(log.tag[0] != log.tag[2] && log.tag[1] != log.tag[2], "[C01] nothing is delivered twice"); }
+    if p0 < 6 && p1 < 6 && h[0].ch == h[1].ch { assert!(p0 < p1, "[C01] per-channel delivery follows submission order"); }
+    if p0 < 6 && p2 < 6 && h[0].ch == h[2].ch { assert!(p0 < p2, "[C01] per-channel delivery follows submission order"); }
+    if p1 < 6 && p2 < 6 && h[1].ch == h[2].ch { assert!(p1 < p2, "[C01] per-channel delivery follows submission order"); }
+    if p1 < 6 && h[0].reliable && h[0].ch == h[1].ch { assert!(p0 < p1, "[C02,C01] a Reliable packet is delivered before any later packet of its channel"); }
+    if p2 < 6 && h[0].reliable && h[0].ch == h[2].ch { assert!(p0 < p2, "[C02,C01] a Reliable packet is delivered before any later packet of its channel"); }
+    if p2 < 6 && h[1].reliable && h[1].ch == h[2].ch { assert!(p1 < p2, "[C02,C01] a Reliable packet is delivered before any later packet of its channel"); }
+    if h[0].reliable && p0 == 6 { assert!(r.base_id() == base, "[C02] the receive window never passes an undelivered Reliable packet"); }
+    kani::cover!(log.n == 3, "everything delivered");
+    std::mem::forget(r);
+}
+
+//@h props=C05,C01 tier=quick timeout=1800 role=receiver-inorder
+//@fn PacketReceiver::{handle_datagram, receive, advance_window}, AssemblyWindow::{try_add, clear}
+//@bound W=4, base 2^20-1; history of 3 packets (channels, modes, bytes any); ideal network: packet n arrives n-th; receive() after the second arrival or only at the end (any)
+#[kani::proof]
+#[kani::unwind(6)]
+fn o5_3_in_order_arrivals_all_delivered_in_order() {
+    let base = 0xFFFFF;
+    let h = history3();
+    let mut r = small(base, 1448 * 4);
+    let mut log = LogSink::new();
+    r.handle_datagram(datagram_of(base, 0, &h[0]));
+    r.handle_datagram(datagram_of(base, 1, &h[1]));
+    if kani::any() { r.receive(&mut log); }
+    r.handle_datagram(datagram_of(base, 2, &h[2]));
     r.receive(&mut log);
     assert!(log.n == 3 && log.len_ok, "[C05] on an ideal network every packet is delivered exactly once");
     assert!(log.tag[0] == 0 && log.tag[1] == 1 && log.tag[2] == 2, "[C05] in global submission order, across channels");
@@ -218,24 +216,40 @@ fn hostile_datagram_short() -> frame::Datagram {
 pub(crate) struct NullSink { pub n: usize }
 impl PacketSink for NullSink { fn send(&mut self, data: Box<[u8]>) { self.n += 1; std::mem::forget(data); } }
 
-//@h props=C03,C06 tier=quick timeout=1200 role=receiver-hostile-1
-//@fn PacketReceiver::{handle_datagram, receive, resynchronize, advance_window}, datagram_is_valid, AssemblyWindow::{try_add, clear}
-//@bound W=4, base 2^20-2, receive limit 1448 (one fragment); ONE datagram with every field any (20-bit id as the codec produces, channel u8, leads/fragment ids u16, 2 payload bytes), then receive(), then resynchronize(any u32 as carried by a sync frame), then receive()
+//@h props=C03,C06 tier=quick timeout=1800 role=receiver-hostile-1
+//@fn PacketReceiver::{handle_datagram, receive, advance_window}, datagram_is_valid, AssemblyWindow::{try_add, clear}
+//@bound W=4, base 2^20-2, receive limit 1448 (one fragment); ONE datagram with every field any (20-bit id as the codec produces, channel u8, leads/fragment ids u16, 2 payload bytes), then receive()
 #[kani::proof]
-#[kani::unwind(7)]
-fn o3_2_one_hostile_datagram_then_resync() {
+#[kani::unwind(6)]
+fn o3_2_one_hostile_datagram() {
     let base = 0xFFFFE;
     let mut r = small(base, 1448);
     let mut sink = NullSink { n: 0 };
     r.handle_datagram(hostile_datagram_short());
     r.receive(&mut sink);
-    let next: u32 = kani::any();
-    r.resynchronize(next);
-    r.receive(&mut sink);
     assert!(packet_id::is_valid(r.base_id()) && packet_id::sub(r.base_id(), base) <= 4, "[C03] window base stays a valid id within one window of the old base");
     assert!(assembly_window::verif_assembly_window::invariant(&r.assembly_window), "[C06] allocation accounting intact");
+    assert!(sink.n <= 1);
     kani::cover!(sink.n == 1, "the hostile datagram was a deliverable packet");
     kani::cover!(r.base_id() != base, "window moved");
+    std::mem::forget(r);
+}
+
+//@h props=C03,C11 tier=quick timeout=900 role=receiver-resync-any
+//@fn PacketReceiver::{resynchronize, advance_window}
+//@bound W=4, base 2^20-2, nothing received; resynchronize(ANY u32, as carried by a sync frame)
+#[kani::proof]
+#[kani::unwind(6)]
+fn o3_2_resynchronize_any_u32() {
+    let base = 0xFFFFE;
+    let mut r = small(base, 1448);
+    let next: u32 = kani::any();
+    r.resynchronize(next);
+    if packet_id::is_valid(next) && packet_id::sub(next, base) <= 4 {
+        assert!(r.base_id() == next, "[C11] an empty window moves to the sender's next id");
+    } else {
+        assert!(r.base_id() == base, "[C03] ids that are not packet ids, or further than one window ahead, are ignored");
+    }
     std::mem::forget(r);
 }
 
@@ -294,33 +308,37 @@ fn o3_10_over_limit_packet_then_receive() {
     std::mem::forget(r);
 }
 
-//@h props=C02,C11 tier=quick timeout=900 role=receiver-resync
+//@h props=C02,C11 tier=quick timeout=1800 role=receiver-resync
 //@fn PacketReceiver::{handle_datagram, resynchronize, receive, advance_window}
 //@bound W=4, base 2^20-2; history of 3 packets, ONE of them (any) arrived and was or was not yet handed to the application; then resynchronize(base+3) (the sender's next id)
 #[kani::proof]
-#[kani::unwind(7)]
+#[kani::unwind(6)]
 fn o2_2_resync_stops_at_first_undelivered() {
     let base = 0xFFFFE;
-    let h = history::<3>();
+    let h = history3();
     let mut r = small(base, 1448 * 4);
     let mut log = LogSink::new();
     let a: usize = kani::any();
     kani::assume(a < 3);
     r.handle_datagram(datagram_of(base, a, &h[a]));
     if kani::any() { r.receive(&mut log); }
-    let got = delivered::<3>(&log, a);
+    let got = log.n == 1;
     let base1 = r.base_id();
     r.resynchronize(packet_id::add(base, 3));
     let nb = r.base_id();
-    if got {
+    if got && !h[0].reliable && !h[1].reliable && !h[2].reliable {
+        // the situation in which a sender offers a packet-window resynchronisation: nothing Reliable outstanding
         assert!(nb == packet_id::add(base, 3), "[C11] with nothing awaiting delivery the window moves to the sender's next id");
-    } else {
-        // the arrived packet is still held: the window must not pass it
-        assert!(packet_id::sub(packet_id::add(base, a as u32), nb) < 4 && packet_id::sub(nb, base) <= a as u32, "[C02,C11] resynchronisation stops at the first packet that still awaits delivery");
     }
-    assert!(packet_id::sub(nb, base1) <= 3);
+    if !got {
+        // the arrived packet is still held: the window must not pass it
+        assert!(packet_id::sub(nb, base) <= a as u32, "[C02,C11] resynchronisation stops at the first packet that still awaits delivery");
+    }
+    assert!(packet_id::sub(nb, base1) <= 3 && packet_id::sub(nb, base) <= 3);
     r.receive(&mut log);
-    check_log::<3>(&h, &log);
+    assert!(log.n <= 1 && log.len_ok);
+    if log.n == 1 { assert!(log.tag[0] as usize == a && log.val[0] == h[a].byte, "[C01] contents unaltered"); }
     kani::cover!(!got && nb != base1, "window advanced up to a held packet");
+    kani::cover!(got && nb == packet_id::add(base, 3), "window resynchronised");
     std::mem::forget(r);
 }
